@@ -464,6 +464,25 @@ def b_broadcast(ctx):
                     vals[tname] = f'{type(e).__name__}'
             if any(isinstance(v, str) or not (v == vals['float'] or abs(v - vals['float']) <= 1e-9 * abs(vals['float'])) for v in vals.values()):
                 ctx.fail('C08:operand-type:cycles', f'cycles({Lint}) depends on the type of the load: {vals}', {'curve': s.to_dict(), 'load': Lint, 'p': p})
+        # number type of the curve parameters: whole-number SD / ND / k_1 stored as integer columns of a frame of curves (what pd.DataFrame({'SD': [300, 400], ...}) or a
+        # table read from a file gives) evaluate like the same numbers stored as floats, at the curve's own failure probability and at another one
+        # (added after seed C08-h returned the stored curve untransformed at its own probability: basquin_load filled an integer buffer)
+        if it % 4 == 0:
+            dfi = pd.DataFrame({'k_1': np.floor(k1).astype(np.int64) + 1, 'k_2': np.floor(k1).astype(np.int64) + 3, 'SD': np.floor(df.SD.to_numpy()).astype(np.int64),
+                                'ND': np.floor(df.ND.to_numpy()).astype(np.int64), 'TN': [4.0, 3.0, 5.0]}, index=df.index)
+            dff = dfi.astype(np.float64)
+            Ns = np.array([0.07, 0.3, 2.5]) * dff.ND.to_numpy()
+            for pf in (0.5, 0.1):
+                for fname, arg in (('load', Ns), ('cycles', np.array([1.7, 1.2, 0.8]) * dff.SD.to_numpy())):
+                    try:
+                        gi = np.asarray(getattr(dfi.woehler, fname)(arg, pf), dtype=float)
+                        gf = np.asarray(getattr(dff.woehler, fname)(arg, pf), dtype=float)
+                    except Exception as e:   # noqa
+                        ctx.fail(f'C08:parameter-dtype:{fname}:raises', f'{fname} on a frame of curves with integer columns raises {type(e).__name__}: {str(e)[:120]}', {'curves': dfi.to_dict('list'), 'p': pf})
+                        continue
+                    if not np.allclose(gi, gf, rtol=1e-12, atol=0, equal_nan=True):
+                        ctx.fail(f'C08:parameter-dtype:{fname}', f'{fname}({arg.tolist()}, {pf}) on a frame of curves with integer SD / ND / k columns = {gi.tolist()}, with the same numbers as floats {gf.tolist()}',
+                                 {'curves': dfi.to_dict('list'), 'p': pf})
         # the same physical curve stored at another failure probability: evaluation at any probability (also the default 0.5) agrees with the 50 % curve,
         # and load / cycles stay inverse on it (added after seed C08-c skipped the probability shift for the default argument 0.5)
         arr0 = arr
